@@ -56,6 +56,10 @@ type copyConf struct {
 	// RT: ImageWithReferrerTgt -- the image itself goes to another layout (<work>/other, not
 	// audited), its referrers are written to the audited layout (driver-only class "reftgt")
 	RT bool `json:"rt,omitempty"`
+	// RK: ImageWithReferrerTgt names the target layout itself, spelled RK ("" = option not given)
+	RK string `json:"rk,omitempty"`
+	// RSrc: ImageWithReferrerSrc(another repository of the source registry with the same content)
+	RSrc bool `json:"rsrc,omitempty"`
 }
 
 type conf struct {
@@ -142,7 +146,19 @@ type opRes struct {
 	done  bool
 }
 
-func (w *world) emit(ev vtrace.Event) { w.trace.Events = append(w.trace.Events, ev) }
+// journal receives every event of the scenario that is running as soon as it is recorded, so that
+// the events recorded before a death of the process (a panic or a fatal error inside the code under
+// test, an out of memory kill) can still be judged by (P)
+var journal *os.File
+
+func (w *world) emit(ev vtrace.Event) {
+	w.trace.Events = append(w.trace.Events, ev)
+	if journal != nil {
+		if b, err := json.Marshal(ev); err == nil {
+			_, _ = journal.Write(append(b, '\n'))
+		}
+	}
+}
 
 // ---------------------------------------------------------------------------
 // quiescence
@@ -180,7 +196,10 @@ func quiescentNow() (bool, string) {
 			st = st[:j]
 		}
 		if !blockedStates[st] {
-			return false, head
+			if len(g) > 900 {
+				g = g[:900]
+			}
+			return false, g
 		}
 		if nl >= 0 && strings.HasPrefix(g[nl+1:], "github.com/regclient/regclient/internal/reghttp.") {
 			return false, head + " (waits inside reghttp: back-off)"
@@ -221,7 +240,8 @@ func (w *world) intercept(rq *simreg.Request) *simreg.Reply {
 		w.mu.Unlock()
 		return nil
 	}
-	p := &pend{rq: rq, copy: rq.Repo, ch: make(chan *simreg.Reply, 1)}
+	// "rs-<copy>" is the separate repository the referrers of a copy are read from (ImageWithReferrerSrc)
+	p := &pend{rq: rq, copy: strings.TrimPrefix(rq.Repo, "rs-"), ch: make(chan *simreg.Reply, 1)}
 	w.pending = append(w.pending, p)
 	w.mu.Unlock()
 	select {
@@ -277,6 +297,11 @@ func (w *world) loadRepo(h *simreg.Host, repo string) {
 			if d := h.PutBlobAlg(repo, alg, nd.Body); d != nd.Digest {
 				panic("simreg digest differs for " + n)
 			}
+		}
+	}
+	for _, n := range asBlob {
+		if d := h.PutBlob(repo, w.cat.nodes[n].Body); d != w.cat.nodes[n].Digest {
+			panic("simreg digest differs for " + n)
 		}
 	}
 	for _, n := range names {
@@ -357,8 +382,11 @@ func (w *world) setup(work string) error {
 	w.cat = newCatalog()
 	w.net = simreg.NewNet()
 	h := w.net.AddHost(srcHost, simreg.DefaultFeatures())
-	for c := range w.sc.Conf.CP {
+	for c, cc := range w.sc.Conf.CP {
 		w.loadRepo(h, c)
+		if cc.RSrc {
+			w.loadRepo(h, "rs-"+c)
+		}
 	}
 	w.loadRepo(h, "pre")
 	h.Intercept = w.intercept
@@ -475,6 +503,20 @@ func (w *world) startCopy(c string) error {
 			return err
 		}
 		opts = append(opts, regclient.ImageWithReferrerTgt(rt))
+	}
+	if cc.RK != "" {
+		rt, err := w.tgtRef(cc.RK, cc.Tag, "")
+		if err != nil {
+			return err
+		}
+		opts = append(opts, regclient.ImageWithReferrerTgt(rt))
+	}
+	if cc.RSrc {
+		rs, err := ref.New(srcHost + "/rs-" + c + ":" + strings.ToLower(cc.Root))
+		if err != nil {
+			return err
+		}
+		opts = append(opts, regclient.ImageWithReferrerSrc(rs))
 	}
 	ctx, cancel := context.WithCancel(w.ctx)
 	w.cancels[c] = cancel
@@ -988,7 +1030,9 @@ func main() {
 		fmt.Fprintln(os.Stderr, "usage: c08drv -in scn.jsonl -out traces.jsonl -work dir")
 		os.Exit(2)
 	}
-	wr, err := vtrace.NewWriter(*out)
+	// traces are written unbuffered, one write per scenario: whatever was finished before a death of
+	// the process is on disk
+	wr, err := os.Create(*out)
 	if err != nil {
 		fmt.Fprintln(os.Stderr, err)
 		os.Exit(2)
@@ -1000,7 +1044,21 @@ func main() {
 			return fmt.Errorf("scenario %d: %w", n, err)
 		}
 		n++
-		return wr.Write(runScenario(sc, *work))
+		if journal, err = os.Create(*out + ".cur"); err != nil {
+			return err
+		}
+		if _, err := fmt.Fprintf(journal, "{\"id\": %q}\n", sc.ID); err != nil {
+			return err
+		}
+		t := runScenario(sc, *work)
+		_ = journal.Close()
+		journal = nil
+		b, err := json.Marshal(t)
+		if err != nil {
+			return fmt.Errorf("marshal trace %s: %w", t.ID, err)
+		}
+		_, err = wr.Write(append(b, '\n'))
+		return err
 	})
 	if cerr := wr.Close(); err == nil {
 		err = cerr
